@@ -3,7 +3,7 @@
 cd "$(dirname "$0")/.." || exit 2
 for d in seeded/*/; do
   id=$(basename $d); prop=$(/venv/bin/python -c "import json;print(json.load(open('$d/meta.json'))['property'])")
-  out=$(tools/run_seeded_scratch.sh $id $prop 2>&1)
+  out=$(tools/run_seeded_scratch.sh $id $prop ${1:-0} 2>&1)
   n=$(echo "$out" | grep -c "^VIOLATION")
   sigs=$(echo "$out" | grep -o "sig=[^ ]*" | sort -u | head -4 | tr '\n' ' ')
   echo "$id $prop violations=$n $( [ $n -gt 0 ] && echo CAUGHT || echo MISSED ) $sigs"
